@@ -63,7 +63,8 @@ def make(shape, cards, names=None, abstract=None, ctc_code=0):
     n = R.n_features(shape)
     names = names or ['F%d' % i for i in range(n)]
     trees = [_rename(t, {'F0': names[0], 'F1': names[1]}) for t in CTCS[ctc_code]] if n >= 2 else []
-    return R.build(shape, cards, names=names, abstract=abstract, ctcs=[R.ctc('c%d' % i, t) for i, t in enumerate(trees)])
+    cn = R.ctc_names(len(trees), n + len(cards))
+    return R.build(shape, cards, names=names, abstract=abstract, ctcs=[R.ctc(cn[i], t) for i, t in enumerate(trees)])
 
 
 def read_tree(tree: ElementTree.ElementTree) -> FeatureModel:
